@@ -512,6 +512,7 @@ class World:
     scoped = (scope + '/' if scope else '') + sel
     api = o.get('api', 'tuple')
     res = {}
+    known = bool(o.get('sel'))      # the specification resolved the target: only then is skip_unknown irrelevant
     if api in ('text', 'block'):
       try:
         self.literal_text(o['val'])
@@ -528,10 +529,10 @@ class World:
         gin.parse_config('%s = %s' % (scope, self.literal_text(o['val'])), skip_unknown=skip)
       elif api == 'text':
         # the target is registered, so every form of skip_unknown must leave the statement applied
-        skip = [False, True, [sel], ('nothing.here',), {sel}][self.step % 5]
+        skip = [False, True, [sel], ('nothing.here',), {sel}][self.step % 5] if known else False
         gin.parse_config('%s.%s = %s' % (scoped, param, self.literal_text(o['val'])), skip_unknown=skip)
       elif api == 'block':
-        skip = [False, True, [sel]][self.step % 3]
+        skip = [False, True, [sel]][self.step % 3] if known else False
         gin.parse_config('%s:\n  %s = %s\n' % (scoped, param, self.literal_text(o['val'])), skip_unknown=skip)
       else:
         raise AdapterError('unknown binding api %r' % api)
@@ -670,6 +671,11 @@ def compare_out(want, got):
     return ('val', want['val'], got.get('val'))
   if want['op'] == 'Finalize' and got.get('sawParsed') is False:
     return ('hooks-see-config-as-parsed', True, False)
+  if (want['op'] == 'Bind' and want['status'] == 'RuntimeError' and not want.get('sel', True)
+      and got['status'] in ('RuntimeError', 'ValueError', 'KeyError')):
+    # locked *and* not resolvable: which of the two errors comes first depends on the API path (a block or a
+    # config-text statement resolves its target before bind_parameter looks at the lock); both reject
+    return None
   if want['status'] != got['status']:
     return ('status', want['status'], got['status'] + (': ' + got.get('msg', '')[:200] if got.get('msg') else ''))
   if want['op'] == 'Call':
